@@ -154,6 +154,19 @@ pub fn generate(seed: u64, tier: &str, sink: &mut Sink) {
     for len in 0..=maxlen {
         exhaustive(len, sink);
     }
+    // (1b) Content-Type values around the edges of the charset parameter syntax (the charset is looked up while the
+    // head is parsed, i.e. inside send(), also on redirect hops)
+    for (v, _) in crate::p_c18::CONTENT_TYPE_EDGES.iter() {
+        for (status, extra) in [(200u16, ""), (302, "Location: /next\r\n")] {
+            let w = format!("HTTP/1.1 {} X\r\nContent-Type: {}\r\n{}Content-Length: 2\r\n\r\nok", status, v, extra).into_bytes();
+            for reads in [Reads::Text(8192), Reads::Sizes(vec![1, 1 << 16])] {
+                let case = RespCase { method: "GET".into(), max_headers: 100, segs: vec![Seg::Data(w.clone())], reads };
+                let out = run_resp(&case);
+                let o = base_oracle(&case, &out, "content-type-syntax");
+                emit(sink, vec!["kind=content-type-syntax".into()], &case, &out, o);
+            }
+        }
+    }
     // (2) mutation stream over valid responses
     let n = if thorough { 60_000 } else { 4000 };
     for i in 0..n {
